@@ -402,6 +402,16 @@ def _in_window(av):
     return _Fr(1, 2 ** KV) <= av <= _Fr(2 ** KV)
 
 
+_FROM_TO = {"TF_kelvin_to_celsius": "TF_celsius_to_kelvin", "TF_kelvin_to_fahrenheit": "TF_fahrenheit_to_kelvin",
+            "TF_kelvin_to_kelvin": "TF_kelvin_to_kelvin"}
+
+
+def temp_key(u):
+    """the to_kelvin function a temperature unit is SUPPOSED to have (when a mutation makes one of its two function
+    pointers unrecognisable, the other one still says which unit it is, so the proved bound still applies)"""
+    return u.get("to") or _FROM_TO.get(u.get("from"))
+
+
 def proved_tab_bound(u, x, vbits):
     """(absolute bound as a Fraction, which theorem) for there-and-back u -> x -> u on value v, or (None, why) when
     (u, x, v) is outside the hypotheses of every proved float theorem"""
@@ -410,7 +420,7 @@ def proved_tab_bound(u, x, vbits):
     av = abs(_exact(vbits))
     ku, kx = u["kind"], x["kind"]
     if ku == "temperature" and kx == "temperature":
-        ab = TEMP_AB.get((u.get("to"), x.get("to")))
+        ab = TEMP_AB.get((temp_key(u), temp_key(x)))
         if ab is None or av > TEMP_VMAX:
             return None, "temperature function not identified"
         return U53 * (1 + _Fr(1, 1024)) * (ab[0] * av + ab[1]), "C17_there_and_back_float_temperature"
